@@ -140,6 +140,7 @@ func wrapperReadRules(c *Check, rule, fn, innerMethod string) (required map[stri
 		}
 	}
 	c.add(rule, innerMethod+": returns the inner content unchanged", "what the wrapper returns is exactly what the inner "+innerMethod+" returned", good, posOf(pg, ok))
+	contentNotModified(c, rule, pg, ct, innerMethod)
 	// no signature state
 	nf := returnsWhere(pg, func(s *PState) bool { return retHasType(s, 1, "ncg/signature.SignatureNotFoundError") })
 	c.floor(fn+" not-found returns", 1, len(nf))
@@ -258,4 +259,21 @@ func wrapperSignRules(c *Check, gate, typestate bool) {
 		}}
 		c.mustPass(pg, "O-C20.2", "the receiver is untouched until the format-level Sign succeeded", "storing into the wrapper", edgeSources(pg, anyStore), mOK)
 	}
+}
+
+// contentNotModified: no field of the content returned by the inner envelope is
+// written by the wrapper (a normalising validator would hand out bytes the key
+// never signed).
+func contentNotModified(c *Check, rule string, pg *PG, ct, name string) {
+	var wr []string
+	for _, s := range pg.States {
+		for _, e := range s.Out {
+			for _, l := range e.Labels {
+				if (l.Kind == "store" || l.Kind == "lstore") && strings.Contains(l.Key, ct+".") {
+					wr = append(wr, c.P.pos(l.Node.Pos)+": "+l.String())
+				}
+			}
+		}
+	}
+	c.add(rule, name+": the content is not modified by the wrapper", "no field of the content returned by the inner "+name+" is written in the wrapper's validation", len(wr) == 0, "", dedupe(wr)...)
 }
